@@ -307,6 +307,14 @@ pub fn drive_connection(app: App, client: usize, side: Side, script: ConnScript,
         a.handles[client] = Some(handle.clone());
     }
     let ids = script.ids();
+    // scripted close by the server application
+    if let (Side::Server, Some((at_us, code))) = (side, script.server_close) {
+        let handle = handle.clone();
+        spawn(async move {
+            sleep_us(at_us).await;
+            handle.close(code.into());
+        });
+    }
     // unreliable datagrams
     {
         let mut steps: Vec<DgramStep> = script.datagrams.iter().copied().filter(|d| d.side == side).collect();
